@@ -3,9 +3,10 @@ package vc
 import (
 	"fmt"
 	"go/types"
+	"math/big"
 	"sort"
 	"strings"
-	"math/big"
+	"unicode/utf16"
 
 	"golang.org/x/tools/go/ssa"
 )
@@ -34,10 +35,12 @@ func init() {
 		"strconv.Atoi":      intrAtoi,
 		"strconv.Itoa":      intrItoa,
 
-		"time.Unix":               intrTimeUnix,
-		"(time.Time).Unix":        intrTimeGetUnix,
-		"(time.Time).UnixNano":    intrTimeUnixNano,
-		"(time.Time).UTC":         func(e *Exec, st *State, fr *Frame, a []Val, in ssa.Instruction, rt types.Type) []callRes { return []callRes{{st, a[0]}} },
+		"time.Unix":            intrTimeUnix,
+		"(time.Time).Unix":     intrTimeGetUnix,
+		"(time.Time).UnixNano": intrTimeUnixNano,
+		"(time.Time).UTC": func(e *Exec, st *State, fr *Frame, a []Val, in ssa.Instruction, rt types.Type) []callRes {
+			return []callRes{{st, a[0]}}
+		},
 		"(time.Time).Nanosecond":  intrTimeNanosecond,
 		"time.Now":                intrTimeNow,
 		"(time.Time).Format":      intrOpaqueString,
@@ -50,17 +53,17 @@ func init() {
 		"(time.Duration).Seconds": intrOpaqueFloat,
 		"time.Since":              intrDurationFresh,
 
-		"bytes.Equal":     intrBytesEqual,
-		"strings.ToUpper": intrStrMapSameLen("toupper"),
-		"strings.ToLower": intrStrMapSameLen("tolower"),
-		"strings.HasPrefix": intrHasPrefix,
-		"strings.HasSuffix": intrHasSuffix,
-		"strings.TrimPrefix": intrTrimPrefix,
-		"strings.TrimSuffix": intrTrimSuffix,
-		"strings.TrimSpace":  intrTrimSpace,
-		"strings.Contains":   intrContains,
-		"strings.EqualFold":  intrFreshBool,
-		"strings.Repeat":     intrRepeat,
+		"bytes.Equal":                 intrBytesEqual,
+		"strings.ToUpper":             intrStrMapSameLen("toupper"),
+		"strings.ToLower":             intrStrMapSameLen("tolower"),
+		"strings.HasPrefix":           intrHasPrefix,
+		"strings.HasSuffix":           intrHasSuffix,
+		"strings.TrimPrefix":          intrTrimPrefix,
+		"strings.TrimSuffix":          intrTrimSuffix,
+		"strings.TrimSpace":           intrTrimSpace,
+		"strings.Contains":            intrContains,
+		"strings.EqualFold":           intrFreshBool,
+		"strings.Repeat":              intrRepeat,
 		"encoding/hex.EncodeToString": intrHexEncode,
 		"encoding/hex.DecodeString":   intrHexDecode,
 
@@ -1548,6 +1551,18 @@ func intrUTF16Decode(e *Exec, st *State, fr *Frame, args []Val, in ssa.Instructi
 
 func intrUTF16Encode(e *Exec, st *State, fr *Frame, args []Val, in ssa.Instruction, rt types.Type) []callRes {
 	s := args[0].(*SliceVal)
+	if vals, ok := e.concreteScalarSlice(st, s); ok {
+		// constant code points: RFC 2781 2.1, exactly (evaluated by unicode/utf16 of the verifier's own Go runtime)
+		rs := make([]rune, len(vals))
+		for i, v := range vals {
+			rs[i] = rune(v)
+		}
+		var out []int64
+		for _, u := range utf16.Encode(rs) {
+			out = append(out, int64(u))
+		}
+		return []callRes{{st, e.constScalarSlice(st, types.Typ[types.Uint16], out, "utf16enc")}}
+	}
 	out := e.freshSliceObj(st, types.Typ[types.Uint16], "utf16enc")
 	e.metaAll[out.Obj].Growable = false
 	if !e.IntMode {
